@@ -174,6 +174,7 @@ func runC01(r *core.Run) {
 		lengthSub(r, "lengths/"+cn, core.MustCfg(cn), core.Pick(r, 1100, 2200), func(s *core.Sub, cv *core.Conv, w []byte) { c01Case(s, cv, w) })
 		replSub(r, "replication/"+cn, core.MustCfg(cn), core.Pick(r, 150, 300), func(s *core.Sub, cv *core.Conv, w []byte) { c01Case(s, cv, w) })
 		if strings.Contains(cn, "attr") {
+			attrEntrySub(r, "attribute-entries/"+cn, core.MustCfg(cn), 3, func(s *core.Sub, cv *core.Conv, w []byte) { c01Case(s, cv, w) })
 			attrSub(r, "attributes/"+cn, core.MustCfg(cn), core.Pick(r, 4, 5), func(s *core.Sub, cv *core.Conv, w []byte) { c01Case(s, cv, w) })
 			attrSub(r, "attributes/core+attr", core.MustCfg("core+attr"), core.Pick(r, 4, 5), func(s *core.Sub, cv *core.Conv, w []byte) { c01Case(s, cv, w) })
 		}
